@@ -108,9 +108,55 @@ def _history_main(argv):
     Path(argv[3]).write_bytes(pickle.dumps(out))
 
 
+def named_runs(ctx, runs):
+    """simulate [(input text, report file name)] through GEOPHIRESv3.main in ONE directory (one process), then read every
+    report and the .json GeophiresXResult.json_output_file_path points to -> [{'report', 'json', 'json_name', 'files', 'error'}]"""
+    d = Path(tempfile.mkdtemp(dir=ctx.scratch))
+    (d / 'in.pkl').write_bytes(pickle.dumps(runs))
+    env = dict(os.environ, PYTHONHASHSEED='0', GEOPHIRES_X_VERIF='0')
+    p = subprocess.run(['timeout', '900', sys.executable, '-B', '-m', 'lib.c10_report', '--runs', str(d / 'in.pkl'), str(d / 'out.pkl')],
+                       env=env, capture_output=True, text=True)
+    if p.returncode != 0:
+        raise RuntimeError('named runs failed: ' + (p.stdout + p.stderr)[-1500:])
+    return pickle.loads((d / 'out.pkl').read_bytes())
+
+
+def _runs_main(argv):
+    logging.disable(logging.CRITICAL)
+    import geophires_x.Model  # noqa: F401
+    from geophires_x import GEOPHIRESv3
+    from geophires_x_client.geophires_x_result import GeophiresXResult
+    runs = pickle.loads(Path(argv[2]).read_bytes())
+    d = Path(argv[2]).parent / 'case'
+    d.mkdir()
+    errors = []
+    for k, (text, name) in enumerate(runs):
+        inp = d / f'input{k}.txt'
+        inp.write_text(text)
+        cwd, av, so = os.getcwd(), sys.argv, sys.stdout
+        sys.argv, sys.stdout = ['', str(inp), str(d / name)], io.StringIO()
+        try:
+            GEOPHIRESv3.main(enable_geophires_logging_config=False)
+            errors.append(None)
+        except BaseException as e:  # noqa
+            errors.append(f'{type(e).__name__}: {e}'[:200])
+        finally:
+            sys.argv, sys.stdout = av, so
+            os.chdir(cwd)
+    out = []
+    for (text, name), err in zip(runs, errors):
+        rp = d / name
+        jp = GeophiresXResult(str(rp)).json_output_file_path if rp.exists() else rp.with_suffix('.json')
+        out.append({'report': rp.read_text() if rp.exists() else None, 'json': Path(jp).read_text() if Path(jp).exists() else None,
+                    'json_name': Path(jp).name, 'files': sorted(x.name for x in d.iterdir()), 'error': err})
+    Path(argv[3]).write_bytes(pickle.dumps(out))
+
+
 def _main(argv):
     if argv[1] == '--history':
         return _history_main(argv)
+    if argv[1] == '--runs':
+        return _runs_main(argv)
     from concurrent.futures import ProcessPoolExecutor
     logging.disable(logging.CRITICAL)
     import geophires_x_client.geophires_x_result  # noqa: F401  (once, before the workers are forked)
